@@ -4,7 +4,7 @@ import numpy as np
 from common import *
 import procgen as pg
 
-PROP_MODULES = ["HvsrVerif.Props.C01"]
+PROP_MODULES = ["HvsrVerif.Props.C01", "HvsrVerif.Props.C01Laws"]
 BRIDGE_MODULES = ["HvsrVerif.Bridge.C01"]
 
 
